@@ -13,9 +13,14 @@
    pc of a compaction thread:  CSelect  about to take the mutex and call next_compaction
                                CWait    inside compact.wait, not notified since
                                CRun c   performing c outside the mutex (c is on `ongoing`)
-                               CDead    returned (panic in the selector, or perform_compaction
-                                        returned an error: the compaction is released, no
-                                        notification is sent, the thread function returns)
+                               CDead    returned: the selector did not return (unreachable on a
+                                        well-formed tree, C20_selector_total), or
+                                        perform_compaction returned an error (I/O): the compaction
+                                        is released and the thread function returns.
+   The relation carries a flag `repaired`.  `step true` is the code after 33fc9d3, where the
+   failing thread calls compact.notify_all() after release_compaction; `step false` is the code
+   before it, where it did not: a thread parked because its only candidates conflicted with the
+   failed compaction was never woken (C20_no_lost_wakeup_compact_refuted_before_repair).
    pc of an ingesting thread:  IIdle    not ingesting
                                ICheck f about to take the mutex / re-evaluate should_stall_ingest
                                IWait f  inside stall.wait, not notified since
@@ -44,59 +49,73 @@ Definition wake_i (p : ipc) : ipc := match p with IWait f => ICheck f | x => x e
 Definition drop_thread (k : nat) (og : list (nat * compaction)) : list (nat * compaction) :=
   filter (fun e => negb (fst e =? k)%nat) og.
 
-Inductive step (o : options) : pstate -> pstate -> Prop :=
+Inductive step (repaired : bool) (o : options) : pstate -> pstate -> Prop :=
 (* a client (the flush thread, or a caller of LsmTree::ingest) starts an ingest *)
 | s_arrive s i f :
     nth_error (p_i s) i = Some IIdle ->
-    step o s (mkP (p_v s) (p_og s) (p_c s) (set_nth i (ICheck f) (p_i s)))
+    step repaired o s (mkP (p_v s) (p_og s) (p_c s) (set_nth i (ICheck f) (p_i s)))
 (* apply_manifest_ingest: `while should_stall_ingest { stall.wait }` *)
 | s_ingest_wait s i f :
     nth_error (p_i s) i = Some (ICheck f) -> should_stall_ingest o (p_v s) = true ->
-    step o s (mkP (p_v s) (p_og s) (p_c s) (set_nth i (IWait f) (p_i s)))
+    step repaired o s (mkP (p_v s) (p_og s) (p_c s) (set_nth i (IWait f) (p_i s)))
 (* ... install the new version, compact.notify_all(), return *)
 | s_ingest_done s i f :
     nth_error (p_i s) i = Some (ICheck f) -> should_stall_ingest o (p_v s) = false ->
-    step o s (mkP (ingest (p_v s) f) (p_og s) (map wake_c (p_c s)) (set_nth i IIdle (p_i s)))
+    step repaired o s (mkP (ingest (p_v s) f) (p_og s) (map wake_c (p_c s)) (set_nth i IIdle (p_i s)))
 | s_ingest_spurious s i f :
     nth_error (p_i s) i = Some (IWait f) ->
-    step o s (mkP (p_v s) (p_og s) (p_c s) (set_nth i (ICheck f) (p_i s)))
+    step repaired o s (mkP (p_v s) (p_og s) (p_c s) (set_nth i (ICheck f) (p_i s)))
 (* compaction_thread: next_compaction under the mutex *)
 | s_select_some s k out c :
     nth_error (p_c s) k = Some CSelect ->
     next_compaction o (p_v s) (ongoing s) = Ok out -> nc_choice out = Some c ->
-    step o s (mkP (p_v s) (p_og s ++ [(k, cc c)]) (set_nth k (CRun c) (p_c s)) (p_i s))
+    step repaired o s (mkP (p_v s) (p_og s ++ [(k, cc c)]) (set_nth k (CRun c) (p_c s)) (p_i s))
 | s_select_none s k out :
     nth_error (p_c s) k = Some CSelect ->
     next_compaction o (p_v s) (ongoing s) = Ok out -> nc_choice out = None ->
-    step o s (mkP (p_v s) (p_og s) (set_nth k CWait (p_c s)) (p_i s))
+    step repaired o s (mkP (p_v s) (p_og s) (set_nth k CWait (p_c s)) (p_i s))
 | s_select_dies s k :
     nth_error (p_c s) k = Some CSelect ->
     (forall out, next_compaction o (p_v s) (ongoing s) <> Ok out) ->
-    step o s (mkP (p_v s) (p_og s) (set_nth k CDead (p_c s)) (p_i s))
+    step repaired o s (mkP (p_v s) (p_og s) (set_nth k CDead (p_c s)) (p_i s))
 (* apply_manifest_compaction / apply_moving_compaction: install, stall.notify_all(); the thread
    loops back to next_compaction.  `outs` is whatever the merge produced. *)
 | s_apply s k c outs :
     nth_error (p_c s) k = Some (CRun c) ->
-    step o s (mkP (apply_compaction (p_v s) (cc c) outs) (drop_thread k (p_og s))
+    step repaired o s (mkP (apply_compaction (p_v s) (cc c) outs) (drop_thread k (p_og s))
                   (set_nth k CSelect (p_c s)) (map wake_i (p_i s)))
-(* perform_compaction returned an error: release_compaction, the thread function returns *)
+(* perform_compaction returned an error: release_compaction, (after the repair)
+   compact.notify_all(), the thread function returns *)
 | s_fail s k c :
     nth_error (p_c s) k = Some (CRun c) ->
-    step o s (mkP (p_v s) (drop_thread k (p_og s)) (set_nth k CDead (p_c s)) (p_i s))
+    step repaired o s (mkP (p_v s) (drop_thread k (p_og s))
+                           (if repaired then map wake_c (set_nth k CDead (p_c s)) else set_nth k CDead (p_c s)) (p_i s))
+(* the compaction was applied, then removing its scratch files failed (compaction_finish returns
+   the error after apply_manifest_compaction succeeded): the thread takes the error branch too
+   (release_compaction finds nothing to release), notifies `compact` (after the repair), returns *)
+| s_apply_fail s k c outs :
+    nth_error (p_c s) k = Some (CRun c) ->
+    step repaired o s (mkP (apply_compaction (p_v s) (cc c) outs) (drop_thread k (p_og s))
+                           (if repaired then map wake_c (set_nth k CDead (p_c s)) else set_nth k CDead (p_c s))
+                           (map wake_i (p_i s)))
 | s_compact_spurious s k :
     nth_error (p_c s) k = Some CWait ->
-    step o s (mkP (p_v s) (p_og s) (set_nth k CSelect (p_c s)) (p_i s)).
+    step repaired o s (mkP (p_v s) (p_og s) (set_nth k CSelect (p_c s)) (p_i s)).
 
-Inductive steps (o : options) : pstate -> pstate -> Prop :=
-| steps_refl s : steps o s s
-| steps_step s1 s2 s3 : steps o s1 s2 -> step o s2 s3 -> steps o s1 s3.
+Inductive steps (repaired : bool) (o : options) : pstate -> pstate -> Prop :=
+| steps_refl s : steps repaired o s s
+| steps_step s1 s2 s3 : steps repaired o s1 s2 -> step repaired o s2 s3 -> steps repaired o s1 s3.
 
 (* an open store: any tree, nothing ongoing, nc >= 1 compaction threads about to select, ni
    client slots idle *)
 Definition init (v : version) (nc ni : nat) : pstate := mkP v [] (repeat CSelect (S nc)) (repeat IIdle ni).
 
-(* "every store thread is parked and no wake-up is pending" *)
-Definition all_compactors_parked (s : pstate) : Prop := forall k p, nth_error (p_c s) k = Some p -> p = CWait.
+(* "every store thread is parked and no wake-up is pending".  The property's premise is that at
+   least one compaction thread is running: threads that returned are not waited for, every
+   remaining one is parked, and at least one remains. *)
+Definition all_compactors_parked (s : pstate) : Prop :=
+  (forall k p, nth_error (p_c s) k = Some p -> p = CWait \/ p = CDead) /\
+  (exists k, nth_error (p_c s) k = Some CWait).
 Definition ingest_parked (s : pstate) : Prop := exists i f, nth_error (p_i s) i = Some (IWait f).
 Definition no_ingest_running (s : pstate) : Prop := forall i p, nth_error (p_i s) i = Some p -> p = IIdle \/ exists f, p = IWait f.
 Definition all_parked (s : pstate) : Prop := all_compactors_parked s /\ no_ingest_running s /\ ingest_parked s.
